@@ -13,8 +13,8 @@ RULE = (
     "a register was inserted); distinct = canonical circuit + parameters"
 )
 BUDGET = {
-    "quick": {"workers": 16, "cases": 110, "secs": 45, "min_cases": 800},
-    "thorough": {"workers": 16, "rounds": 4, "cases": 420, "secs": 240, "min_cases": 8000},
+    "quick": {"workers": 16, "cases": 1000, "secs": 60, "min_cases": 8000},
+    "thorough": {"workers": 16, "rounds": 4, "cases": 2500, "secs": 420, "min_cases": 80000},
 }
 ANCHORS = ["tx:limit_fanin", "tx:limit_fanout", "tx:insert_registers", "tx:acyclic_unroll"]
 
